@@ -1281,6 +1281,8 @@ val seg : uData -> str -> str list
 
 val cols : config -> nat
 
+val take_first : inchar list list -> (inchar * istream) option
+
 val take_char : inchar list -> inchar list list -> (inchar * istream) option
 
 val next_char : n e
